@@ -404,6 +404,7 @@ impl<'a> LaxPacketHeaders<'a> {
                     }
                 };
                 result.net = Some(NetHeaders::Arp(arp));
+                result.payload = LaxPayloadSlice::Empty;
                 return result;
             }
             _ => {}
